@@ -451,6 +451,7 @@ class Presenter:
         self.src: dict = {}
         self.idx: dict = {}
         self.last_ptr = None
+        self.restored = 0
 
     def call(self, A, c: dict, pres: str, via: str) -> tuple[dict, torch.Tensor | None]:
         if pres == "new" or len(c["dims"]) != 2:
@@ -473,8 +474,15 @@ class Presenter:
                     B.copy_(T)
                 elif via != "same":
                     raise RuntimeError(f"unknown in-place rewrite {via}")
-                if tuple(B.shape) != tuple(T.shape) or B.dtype != T.dtype or not (
-                        torch.equal(_bits(B), _bits(T)) or torch.equal(B, T)):          # -0.0 == 0.0
+                def _holds() -> bool:
+                    return tuple(B.shape) == tuple(T.shape) and B.dtype == T.dtype and (
+                        torch.equal(_bits(B), _bits(T)) or torch.equal(B, T))           # -0.0 == 0.0
+                if not _holds() and tuple(B.shape) == tuple(T.shape) and B.dtype == T.dtype:
+                    # an earlier call of the history wrote into the buffer (reported there as
+                    # input_modified by observe()); restore the content so that the history goes on
+                    B.copy_(T)
+                    self.restored += 1
+                if not _holds():
                     raise RuntimeError(f"rewriting the buffer via {via} did not produce the content of {class_text(c)}")
             self.buf_e = c["e"]
             obs, out = observe(A, self.buf)
